@@ -1,7 +1,7 @@
 (** * Vld/ValidatorProofs.v — proofs about the validator model (C04). *)
 From Coq Require Import List NArith ZArith Bool Lia Permutation.
 From ApiFu Require Import Base.Sexp Vld.Ast Vld.Inspect Vld.Literals Vld.TypeInfoModel Vld.TypeInfoPure Vld.ValidatorModel Vld.ValidSpec
-     Vld.Hyps Vld.ProofsCommon Vld.ProofsDirectives Vld.ProofsArguments Vld.ProofsFragDecl Vld.ProofsValues Vld.ProofsOrder Vld.ProofsOperations.
+     Vld.Hyps Vld.ProofsCommon Vld.ProofsDirectives Vld.ProofsArguments Vld.ProofsFragDecl Vld.ProofsValues Vld.ProofsOrder Vld.ProofsOperations Vld.ProofsTotal.
 Import ListNotations.
 
 (** ** the primary / secondary filter (validator.go:82-91) *)
@@ -169,4 +169,20 @@ Theorem accepted_operations_hold pi S F D :
 Proof.
   intros H. apply validate_model_nil, all_rules_nil in H as [Ho _].
   apply (rule_operations_iff S F D) in Ho as [H1 [H2 [H3 _]]]. auto.
+Qed.
+
+(** with totality: under every order the outcome is a list of errors, empty under one order iff
+    empty under the other — the verdict (accept / reject) is a function of schema, features, document *)
+Theorem validate_verdict_order pi1 pi2 S F D :
+  order_ok pi1 -> order_ok pi2 ->
+  (validate_model repaired pi1 S F D = Done [] /\ validate_model repaired pi2 S F D = Done []) \/
+  (exists e1 l1 e2 l2, validate_model repaired pi1 S F D = Done (e1 :: l1) /\ validate_model repaired pi2 S F D = Done (e2 :: l2)).
+Proof.
+  intros H1 H2. destruct (validate_no_panic pi1 S F D H1) as [errs1 E1]. destruct (validate_no_panic pi2 S F D H2) as [errs2 E2].
+  pose proof (validate_accept_order pi1 pi2 S F D H1 H2) as Hiff. rewrite E1, E2 in *.
+  destruct errs1 as [|e1 l1]; destruct errs2 as [|e2 l2].
+  - left. auto.
+  - destruct Hiff as [Hiff _]. specialize (Hiff eq_refl). discriminate.
+  - destruct Hiff as [_ Hiff]. specialize (Hiff eq_refl). discriminate.
+  - right. exists e1, l1, e2, l2. auto.
 Qed.
